@@ -11,8 +11,9 @@
 (*   [op, n, old, v, t,            the call (as RefMap!Call)               *)
 (*    got, oserr, form,            what it returned / raised               *)
 (*    loose, packed, dirs,         the state read back afterwards          *)
-(*    get, asd, sym,               refs[n] for every name, as_dict(),      *)
-(*                                 get_symrefs() (or "exc:X" in asdx/symx) *)
+(*    get, peeled, asd, sym,       refs[n] and get_peeled(n) for every     *)
+(*                                 name, as_dict(), get_symrefs() (or      *)
+(*                                 "exc:X" in asdx / symx)                 *)
 (*    git]                         C git's listing (files backend only)    *)
 (*                                                                         *)
 (* The monitor computes, from the state it holds, what the specification   *)
@@ -21,8 +22,8 @@
 (* clause and then ADOPTS the recorded state, so that every later call is  *)
 (* judged from the state the implementation really was in.                 *)
 (*   clauses: result, state, placement (shape: drift, not a violation),    *)
-(*            get, as_dict, symrefs, git-refs, git-peeled, git-symref,     *)
-(*            git-head                                                     *)
+(*            get, peeled, as_dict, symrefs, git-refs, git-peeled,         *)
+(*            git-symref, git-head                                         *)
 (* For the in-memory and reftable backends only calls inside the common    *)
 (* contract (RefMap!Common) are judged; the others are just adopted.       *)
 (***************************************************************************)
@@ -36,8 +37,9 @@ TraceValues == Range(Traces[1].values)
 PeelOf(v) == LET S == {p \in Range(Traces[1].peel) : p[1] = v} IN
              IF S = {} THEN v ELSE (CHOOSE p \in S : TRUE)[2]
 
-VARIABLES tid, l, nfail
-tvars == <<fvars, tid, l, nfail>>
+VARIABLES tid, l, nfail,
+          effv      \* the effective map of the current state (kept as a value: it is read many times)
+tvars == <<fvars, tid, l, nfail, effv>>
 
 Ev == Traces[tid].ev
 IsFiles == Traces[tid].backend = "disk"
@@ -65,8 +67,51 @@ TraceInit ==
     /\ tid \in 1..Len(Traces)
     /\ l = 1 /\ nfail = 0
     /\ FInit
+    /\ effv = EmptyMap
 
-Fail(clause, want, tgt) == PrintT(<<"FAIL", Traces[tid].tid, l, clause, want, tgt>>)
+\* a failed clause: <<clause, what the specification says, the name concerned>>
+Fail(f) == PrintT(<<"FAIL", Traces[tid].tid, l, f[1], f[2], f[3]>>)
+
+\* The failed clauses of event e, given the specification's outcome o of the call.  Reads the
+\* PRIMED variables: Consume has adopted the recorded state into them, so they are plain values.
+Failures(e, o, judged) ==
+    LET oE == effv'
+        resOK   == ResultOK(o.res, e)
+        stateOK == oE = EffOf(o.loose, o.packed)
+        placeOK == loose' = o.loose /\ packed' = o.packed /\ (IsFiles => dirs' = o.dirs)
+        badGet  == {<<"get", obs'[e.get[i].n], e.get[i].n>> :
+                       i \in {j \in DOMAIN e.get : e.get[j].r # obs'[e.get[j].n]}}
+        \* get_peeled: nothing cached ("") or the peeled value of what the ref resolves to
+        badPeel == {<<"peeled", obs'[e.peeled[i].n], e.peeled[i].n>> :
+                       i \in {j \in DOMAIN e.peeled :
+                                 LET p == e.peeled[j].p  g == obs'[e.peeled[j].n] IN
+                                 ~(\/ p = ""
+                                   \/ g \in Values /\ p = PeelOf(g)
+                                   \/ g \notin Values /\ p \in {"exc:KeyError", "exc:SymrefLoop"})}}
+        resolv  == {n \in Names : obs'[n] \in Values}
+        asdOK   == e.asdx = "" /\ {<<x.n, x.v>> : x \in Range(e.asd)} = {<<n, obs'[n]>> : n \in resolv}
+        symOK   == e.symx = "" /\ {<<x.n, x.t>> : x \in Range(e.sym)} = {<<n, oE[n].t>> : n \in {x \in Names : oE[x].k = "sym"}}
+        hasGit  == IsFiles /\ e.git.on /\ NoCollision(oE)
+        listed  == {n \in resolv : n # HeadRef \/ e.git.head_ok}
+        gRefsOK == {<<x.n, x.v>> : x \in Range(e.git.refs)} = {<<n, obs'[n]>> : n \in listed}
+        gPeelOK == {<<x.n, x.v>> : x \in Range(e.git.peeled)}
+                     = {<<n, PeelOf(obs'[n])>> : n \in {x \in listed : PeelOf(obs'[x]) # obs'[x]}}
+        \* for-each-ref %(symref) names the ref at the END of the chain
+        gSymOK  == {<<x.n, x.t>> : x \in Range(e.git.symref)}
+                     = {<<n, Follow(oE, n).last>> : n \in {x \in listed \ {HeadRef} : oE[x].k = "sym"}}
+        \* git symbolic-ref --no-recurse HEAD
+        gHeadOK == ~e.git.head_ok \/ e.git.head_sym = (IF oE[HeadRef].k = "sym" THEN oE[HeadRef].t ELSE NoName)
+        F(cl)   == {<<cl, o.res, o.tgt>>}
+    IN  (IF judged /\ ~resOK THEN F("result") ELSE {})
+        \cup (IF judged /\ resOK /\ ~stateOK THEN F("state") ELSE {})
+        \cup (IF judged /\ resOK /\ stateOK /\ ~placeOK THEN F("placement") ELSE {})
+        \cup badGet \cup badPeel
+        \cup (IF ~asdOK THEN F("as_dict") ELSE {})
+        \cup (IF ~symOK THEN F("symrefs") ELSE {})
+        \cup (IF hasGit /\ ~gRefsOK THEN F("git-refs") ELSE {})
+        \cup (IF hasGit /\ ~gPeelOK THEN F("git-peeled") ELSE {})
+        \cup (IF hasGit /\ ~gSymOK THEN F("git-symref") ELSE {})
+        \cup (IF hasGit /\ ~gHeadOK THEN F("git-head") ELSE {})
 
 Consume ==
     /\ l <= Len(Ev)
@@ -76,43 +121,17 @@ Consume ==
                  ELSE IF e.op = "PackRefs" THEN PackOutcome(e.v)
                  ELSE IF e.op = "GitPack" THEN GitPackOutcome
                  ELSE [res |-> "None", common |-> TRUE, tgt |-> NoName, loose |-> loose, packed |-> packed, dirs |-> dirs]
-           judged == IsFiles \/ o.common
-           oL == ToMap(e.loose)
-           oP == ToMap(e.packed)
-           oD == Range(e.dirs)
-           oE == EffOf(oL, oP)
-           resOK   == ResultOK(o.res, e)
-           stateOK == oE = EffOf(o.loose, o.packed)
-           placeOK == oL = o.loose /\ oP = o.packed /\ (IsFiles => oD = o.dirs)
-           getOK   == \A i \in DOMAIN e.get : e.get[i].r = GetStr(oE, e.get[i].n)
-           asdOK   == e.asdx = "" /\ {<<x.n, x.v>> : x \in Range(e.asd)} = {<<n, Get(oE, n).v>> : n \in Resolvable(oE)}
-           symOK   == e.symx = "" /\ {<<x.n, x.t>> : x \in Range(e.sym)} = {<<n, oE[n].t>> : n \in {x \in Names : oE[x].k = "sym"}}
-           hasGit  == IsFiles /\ e.git.on
-           listed  == {n \in Resolvable(oE) : n # HeadRef \/ e.git.head_ok}
-           gRefsOK == {<<x.n, x.v>> : x \in Range(e.git.refs)} = {<<n, Get(oE, n).v>> : n \in listed}
-           gPeelOK == {<<x.n, x.v>> : x \in Range(e.git.peeled)}
-                        = {<<n, PeelOf(Get(oE, n).v)>> : n \in {x \in listed : PeelOf(Get(oE, x).v) # Get(oE, x).v}}
-           gSymOK  == {<<x.n, x.t>> : x \in Range(e.git.symref)}
-                        = {<<n, oE[n].t>> : n \in {x \in listed \ {HeadRef} : oE[x].k = "sym"}}
-           \* git symbolic-ref HEAD answers for a symbolic HEAD unless the chain loops
-           gHeadOK == ~e.git.head_ok \/
-                      e.git.head_sym = (IF oE[HeadRef].k = "sym" /\ Get(oE, HeadRef).res # "SymrefLoop" THEN oE[HeadRef].t ELSE NoName)
-           fails == (IF judged /\ ~resOK THEN {"result"} ELSE {})
-                    \cup (IF judged /\ resOK /\ ~stateOK THEN {"state"} ELSE {})
-                    \cup (IF judged /\ resOK /\ stateOK /\ ~placeOK THEN {"placement"} ELSE {})
-                    \cup (IF ~getOK THEN {"get"} ELSE {})
-                    \cup (IF ~asdOK THEN {"as_dict"} ELSE {})
-                    \cup (IF ~symOK THEN {"symrefs"} ELSE {})
-                    \cup (IF hasGit /\ ~gRefsOK THEN {"git-refs"} ELSE {})
-                    \cup (IF hasGit /\ ~gPeelOK THEN {"git-peeled"} ELSE {})
-                    \cup (IF hasGit /\ ~gSymOK THEN {"git-symref"} ELSE {})
-                    \cup (IF hasGit /\ ~gHeadOK THEN {"git-head"} ELSE {})
-       IN  /\ \A f \in fails : Fail(f, o.res, o.tgt)
-           /\ nfail' = nfail + Cardinality(fails)
-           /\ loose' = oL /\ packed' = oP
-           /\ dirs' = IF IsFiles THEN oD ELSE dirs
-           /\ obs' = ObsOf(oE)
+           \* a state in which two refs collide is outside the contract (reaching it was reported)
+           judged == (IsFiles \/ o.common) /\ NoCollision(effv)
+       IN  \* adopt the recorded state, then judge
+           /\ loose' = ToMap(e.loose) /\ packed' = ToMap(e.packed)
+           /\ dirs' = IF IsFiles THEN Range(e.dirs) ELSE dirs
+           /\ effv' = EffOf(loose', packed')
+           /\ obs' = [n \in Names |-> GetStr(effv', n)]
            /\ last' = [c |-> c, res |-> o.res]
+           /\ LET fails == Failures(e, o, judged) IN
+                /\ \A f \in fails : Fail(f)
+                /\ nfail' = nfail + Cardinality(fails)
     /\ l' = l + 1
     /\ UNCHANGED tid
 
@@ -120,7 +139,7 @@ Finish ==
     /\ l = Len(Ev) + 1
     /\ PrintT(<<"DONE", Traces[tid].tid, nfail>>)
     /\ l' = l + 1
-    /\ UNCHANGED <<fvars, tid, nfail>>
+    /\ UNCHANGED <<fvars, tid, nfail, effv>>
 
 TraceNext == Consume \/ Finish
 TraceSpec == TraceInit /\ [][TraceNext]_tvars
